@@ -145,7 +145,8 @@ def _norm(m):
 
 
 WIRE_NAMES = [b"a.b.C", b"a.b.c.D", b"a.bc.D", b"a.D", b"os.system", b"a.b.os.system", b"a.b.os.path.join", b"C", b"a.b", b"a.b.C.method"]
-POLICIES = [frozenset(), frozenset({"a.b"}), frozenset({"a"}), frozenset({"a.b", "os.path"})]
+# the permissive policy comes first: whatever it makes the method remember must not leak into the stricter runs that follow
+POLICIES = [frozenset({"a.b", "a.b.c", "a.bc", "a", "os", "a.b.os", "a.b.os.path", "a.b.C", ""}), frozenset(), frozenset({"a.b"}), frozenset({"a"}), frozenset({"a.b", "os.path"})]
 
 
 def _resolver_semantics(ctx, f, fq, menv):
@@ -157,6 +158,12 @@ def _resolver_semantics(ctx, f, fq, menv):
         raise AnalysisError(f"{f.name}: expected (self, <s-expression>)")
     bad = None
     n = 0
+    import copy
+    shared = {k: copy.deepcopy(v) for k, v in menv.items() if isinstance(v, (dict, list, set))}      # module-level mutable state lives across unjelly calls and tasters
+    module_only = all(call_name(c) in RESOLVERS_MODULE for c in ast.walk(f) if _is_call_to(c, RESOLVERS_OBJECT | RESOLVERS_MODULE))
+
+    def mentions_resolved(v):
+        return v is _Resolved or (isinstance(v, (tuple, list)) and any(mentions_resolved(x) for x in v))
     for allowed in POLICIES:
         for name in WIRE_NAMES:
             resolved = []
@@ -169,22 +176,31 @@ def _resolver_semantics(ctx, f, fq, menv):
             funcs["hasattr"] = lambda o, nme: False
             funcs["qual"] = lambda o: "qual"
             env = dict(menv)
+            env.update(shared)
             env.update({"self": object(), params[0]: [name, [b"dictionary"]],
                         "self.taster.isModuleAllowed": lambda m, _a=allowed: _norm(m) in _a, "self.taster.isClassAllowed": lambda c: True,
                         "self.taster.isTypeAllowed": lambda t: True, "self._genericUnjelly": lambda c, st: ("instance of", c),
                         "self._maybePostUnjelly": lambda o: o, "self.unjelly": lambda o: o, "unjellyableRegistry": {}, "unjellyableFactoryRegistry": {}})
+            res = None
             try:
-                eval_block(f.body, env, funcs=funcs)
+                res = eval_block(f.body, env, funcs=funcs)
             except BlockRaised:
                 pass                     # the evaluated method raises (e.g. on a name without a dot): nothing more is resolved
             n += 1
+            if res is not None and res.returned and mentions_resolved(res.value) and not resolved:
+                x = _norm(name)
+                module = x if module_only else x.rpartition(".")[0]
+                if module not in allowed and bad is None:
+                    bad = (name, sorted(allowed), "remembered", x, module)
             for kind, x in resolved:
                 module = x if kind == "module" else x.rpartition(".")[0]
                 if module not in allowed and bad is None:
                     bad = (name, sorted(allowed), kind, x, module)
     ctx.check(bad is None, "resolver/never-resolves-outside-policy", fq + " | <whole method, modelled policy>",
-              bad and f"with modules {bad[1]!r} allowed, the s-expression naming {bad[0]!r} makes the method resolve {bad[3]!r}, which imports / traverses module {bad[4]!r} - "
-              "a module the policy does not allow (the policy must be asked about exactly the module part of the name that is resolved)",
+              bad and (f"with modules {bad[1]!r} allowed, the s-expression naming {bad[0]!r} makes the method " +
+                       ("return an object resolved earlier under a more permissive policy (a memo shared between tasters) although module " if bad[2] == "remembered"
+                        else f"resolve {bad[3]!r}, which imports / traverses module ") +
+                       f"{bad[4]!r} is not allowed (the policy of THIS unjelly must be asked about exactly the module part of the name, on every path that yields the object)"),
               detail=f"{n} (policy, wire name) cases")
 
 
@@ -311,6 +327,13 @@ def check(ctx):
                     ctx.check(ok, "resolver/class-policy", ctx.construct(fq, g.node(u).ast),
                               f"the object resolved from a wire name ({var}) is returned / instantiated without self.taster.isClassAllowed({var}) having answered true",
                               witness=g.describe(g.path([s], [u])))
+        # ---- R2b every value-returning path of a dedicated resolver method lies under the module policy (early returns of cached values included)
+        if sinks and f.name.startswith("_unjelly_"):
+            for rn in g.ids(lambda n: n.kind == "stmt" and isinstance(n.ast, ast.Return) and n.ast.value is not None
+                            and not (isinstance(n.ast.value, ast.Constant) and n.ast.value.value is None)):
+                ctx.check(bool(_guard_args(g, rn, "isModuleAllowed")), "resolver/every-return-under-policy", ctx.construct(fq, g.node(rn).ast),
+                          "this return path hands back an object without self.taster.isModuleAllowed(...) having answered true on it (e.g. a value read from a cache "
+                          "filled under another policy)", witness=g.describe(g.path([g.entry], [rn])))
         # ---- R3 instantiation sinks: provenance of the class argument
         for s in g.find(lambda x: _is_call_to(x, INSTANTIATORS)):
             for call in [x for x in walk_local(g.node(s).ast) if _is_call_to(x, INSTANTIATORS)]:
@@ -429,6 +452,62 @@ def check(ctx):
                               f"{tgt} is modified in {q}: classes become instantiable from the wire without having been registered through the setUnjellyable* functions")
         ctx.floor("registry/who-may-write", nreg, 2)
 
+    # ---- no state shared between tasters is written while unjellying
+    with sect(ctx, 'no cross-policy memo'):
+        shared_names = set()
+        for st in mod.tree.body:
+            if isinstance(st, ast.Assign) and len(st.targets) == 1 and isinstance(st.targets[0], ast.Name):
+                v = st.value
+                if isinstance(v, (ast.Dict, ast.List, ast.Set)) or (isinstance(v, ast.Call) and (call_name(v) or "").split(".")[-1] in
+                                                                   ("dict", "list", "set", "deque", "defaultdict", "OrderedDict", "WeakValueDictionary", "WeakKeyDictionary")):
+                    shared_names.add(st.targets[0].id)
+        nshared = 0
+        for q, f in meths:
+            for st in ast.walk(f):
+                hit = None
+                if isinstance(st, (ast.Assign, ast.AugAssign, ast.Delete)):
+                    for t in (st.targets if isinstance(st, (ast.Assign, ast.Delete)) else [st.target]):
+                        root = t
+                        while isinstance(root, ast.Subscript):
+                            root = root.value
+                        if isinstance(t, ast.Subscript) and isinstance(root, ast.Name) and root.id in shared_names:
+                            hit = root.id
+                elif isinstance(st, ast.Call) and isinstance(st.func, ast.Attribute) and isinstance(st.func.value, ast.Name) and st.func.value.id in shared_names \
+                        and st.func.attr in ("update", "setdefault", "pop", "clear", "append", "add", "extend", "insert", "remove", "discard", "popitem", "__setitem__", "appendleft"):
+                    hit = st.func.value.id
+                elif isinstance(st, ast.Global):
+                    hit = ", ".join(st.names)
+                if hit:
+                    nshared += 1
+                    ctx.check(False, "state/no-cross-policy-memo", ctx.construct(base + q, st),
+                              f"module-level state ({hit}) is written while unjellying: it outlives the _Unjellier and its taster, so what one (permissive) policy resolved "
+                              "or registered is visible to an unjelly under another (strict) policy")
+        ctx.ok("state/no-cross-policy-memo", base + "_Unjellier", f"{len(shared_names)} module-level containers, {nshared} writes from _Unjellier")
+
+    # ---- placeholder tests cover every kind of unresolved object
+    with sect(ctx, 'placeholder tests use the root class'):
+        cmod = ctx.mod("persisted/crefutil.py")
+        bases = {c.name: [src(b) for b in c.bases] for c in cmod.tree.body if isinstance(c, ast.ClassDef)}
+        ctx.need("NotKnown" in bases, "persisted.crefutil.NotKnown")
+
+        def descends(name, root, seen=()):
+            return name == root or any(b.split("[")[0].split(".")[-1] not in seen and descends(b.split("[")[0].split(".")[-1], root, seen + (name,)) for b in bases.get(name, []))
+        family = {n for n in bases if descends(n, "NotKnown")}
+        sites = 0
+        for q, f in meths:
+            for c in ast.walk(f):
+                if isinstance(c, ast.Call) and call_name(c) == "isinstance" and len(c.args) == 2:
+                    named = [src(e).split(".")[-1] for e in (c.args[1].elts if isinstance(c.args[1], ast.Tuple) else [c.args[1]])]
+                    if not any(n in family for n in named):
+                        continue
+                    sites += 1
+                    covered = {n for n in family if any(descends(n, k) for k in named)}
+                    missing = sorted(family - covered - {"NotKnown"})
+                    ctx.check(not missing, "placeholders/root-class-test", ctx.construct(base + q, c),
+                              f"this 'still unresolved?' test recognises only {sorted(covered)!r}; placeholders of kind {missing!r} (all subclasses of crefutil.NotKnown) pass as finished "
+                              "objects, so a container referring back to an object under construction is frozen with the placeholder inside (cycle lost)")
+        ctx.floor("placeholders/root-class-test", sites, 4)
+
     # ---- reference table discipline (shared and cyclic references)
     with sect(ctx, 'reference table discipline'):
         _check_references(ctx, menv)
@@ -537,6 +616,11 @@ MUTANTS = [
            '        if cut == 0:\n            raise InsecureJelly("Module not allowed: %s" % fname)\n', expect_rule="resolver/never-resolves-outside-policy"),
     Mutant("dereference-truthiness-test", JELLY, "        if x is not None:\n            return x\n        der = _Dereference(refid)\n        self.references[refid] = der\n        return der\n",
            "        if x:\n            return x\n        der = _Dereference(refid)\n        self.references[refid] = der\n        return der\n", expect_rule="references/table-discipline"),
+    Mutant("class-memo-shared-between-tasters", JELLY, '        clist = cname.split(nativeString("."))\n        modName = nativeString(".").join(clist[:-1])\n        if not self.taster.isModuleAllowed(modName):\n            raise InsecureJelly("module %s not allowed" % modName)\n',
+           '        if cname in unjellyableFactoryRegistry:\n            return unjellyableFactoryRegistry[cname]\n        clist = cname.split(nativeString("."))\n        modName = nativeString(".").join(clist[:-1])\n        if not self.taster.isModuleAllowed(modName):\n            raise InsecureJelly("module %s not allowed" % modName)\n',
+           more=[(JELLY, '            raise InsecureJelly("class not allowed: %s" % qual(klaus))\n        return klaus\n', '            raise InsecureJelly("class not allowed: %s" % qual(klaus))\n        unjellyableFactoryRegistry[cname] = klaus\n        return klaus\n')],
+           expect_rule="resolver/"),
+    Mutant("set-element-placeholder-test-narrowed", JELLY, "            if isinstance(data, NotKnown):\n", "            if isinstance(data, (_Dereference, _Container)):\n", expect_rule="placeholders/root-class-test"),
     Mutant("module-policy-prefix-match", JELLY, "        return moduleName in self.allowedModules\n", "        return any(moduleName.startswith(m) for m in self.allowedModules)\n",
            expect_rule="policy/module-exact-membership"),
     Mutant("type-policy-allows-code-atoms-by-default", JELLY, '            b"frozenset": 1,\n        }\n', '            b"frozenset": 1,\n            b"function": 1,\n        }\n', expect_rule="policy/defaults-empty"),
@@ -554,6 +638,8 @@ SILENT = [
            "        if x is None:\n            x = self.references[refid] = _Dereference(refid)\n        return x\n"),
     Silent("function-module-part-by-loop", JELLY, '        modName = nativeString(".").join(modSplit[:-1])\n',
            '        parts = []\n        for piece in modSplit[:-1]:\n            parts.append(piece)\n        modName = nativeString(".").join(parts)\n'),
+    Silent("class-memo-owned-by-the-unjellier", JELLY, '        klaus = namedObject(cname)\n        objType = type(klaus)\n', '        klaus = namedObject(cname)\n        self.references.setdefault(("class", cname), klaus)\n        objType = type(klaus)\n'),
+    Silent("placeholder-test-as-full-tuple", JELLY, "            if isinstance(data, NotKnown):\n", "            if isinstance(data, (NotKnown, _Dereference)):\n"),
     Silent("class-check-combined", JELLY, '            clz = namedObject(jelTypeText)\n            if not self.taster.isClassAllowed(clz):\n                raise InsecureJelly("Class %s not allowed." % jelTypeText)\n            return self._genericUnjelly(clz, obj[1])\n',
            '            clz = namedObject(jelTypeText)\n            if self.taster.isClassAllowed(clz):\n                return self._genericUnjelly(clz, obj[1])\n            raise InsecureJelly("Class %s not allowed." % jelTypeText)\n'),
 ]
